@@ -495,7 +495,7 @@ func noteExitDir(cond ssa.Value, exitOnTrue bool, p *ssa.Phi) {
 
 func testedVars(l *natLoop) (phis []*ssa.Phi, fields []*ssa.FieldAddr, hasExitTest bool, usesIterator bool) {
 	seenP := map[*ssa.Phi]bool{}
-	for b := range l.Blocks {
+	for _, b := range l.ordered() {
 		exits := false
 		for _, s := range b.Succs {
 			if !l.Blocks[s] {
